@@ -218,7 +218,7 @@ func HarnessC04Statement() {
 	}
 	cs := verif.Param("CASE", -1)
 	if cs < 0 {
-		cs = verif.Choice("case", 14)
+		cs = verif.Choice("case", 15)
 	}
 	switch cs {
 	case 0:
@@ -273,6 +273,15 @@ func HarnessC04Statement() {
 		for _, d := range dg {
 			expH = append(expH, expected{tval{sb: d.sb, pb: 'b', pk: 1, pa: 1, ob: 'c', ok: 4, oa: d.pa}, verif.And(d.pk == 1, d.pb == 'a')})
 		}
+	case 14:
+		// a template made of constants only: the one triple is added when the pattern
+		// has at least one solution, and nothing otherwise
+		q = "construct { /u<a> \"b\"@[] /u<b> } into ?h from ?g where { ?s \"a\"@[] ?o } ;"
+		any := false
+		for _, e := range inst('b') {
+			any = verif.Or(any, e.cond)
+		}
+		expH = append(expH, expected{tval{sb: 'a', pb: 'b', ob: 'b', ok: 0}, any})
 	case 11:
 		// reification where rows differ only in a binding used after the ';': still
 		// one fresh blank node (with its three reification triples and its extra
